@@ -3,7 +3,7 @@
 PID="$1"; V="$2"; SRC="/tmp/wtout/$PID/$V"; ID="$PID$V"
 WT="/tmp/confirm_wt_$ID"; OUT="/verif/seeded/$ID"; LOG="/tmp/confirm_$ID.log"
 rm -rf "$WT"; git -C /repo worktree prune; git -C /repo worktree add -q --detach "$WT" HEAD || exit 2
-cd "$WT"
+cd "$WT"; export PYTHONPATH="$WT"
 res() { echo "$ID $1"; git -C /repo worktree remove --force "$WT"; exit 0; }
 /venv/bin/python "$SRC/demo.py" > "$LOG.clean" 2>&1; c=$?
 [ $c -eq 0 ] || res "REJECT demo fails on clean tree (rc=$c)"
